@@ -2,12 +2,15 @@ import StepModel.GenPy
 import StepModel.GenPyPass
 import StepModel.GenPyOrder
 import StepModel.GenPyEntityOrder
+import StepModel.GenPyBody
 /-!
 # C18 — exp2python emits a module that mirrors the schema
 
 Model: `StepModel.GenPy` (emission rule of `LIBdescribe_entity` / `TYPEprint_descriptions`, keyword list and runtime
 package regenerated from the C sources).  "Python can compile and import the module" is observed by the check
-(py_compile + import against the bundled runtime), not proved.
+(py_compile + import against the bundled runtime), not proved.  The bodies of derived-attribute getters and WHERE-rule
+methods: `StepModel.GenPy.Body` (the expression printer composed with Python's reading of the text, tied by Python's own
+`ast` on every generated expression).
 -/
 namespace StepModel.GenPy
 open StepModel.Generated
@@ -920,5 +923,303 @@ theorem C18_bases_decl_order_of_unrelated_supertypes (es : List Entity) (hac : E
   cases hb : isAncestor es es.length r o with
   | false => rfl
   | true => exact absurd ((C18_has_ancestor_depth_suffices es hac r o).mp hb) (h r hr o ho)
+
+/-! ## the bodies of derived-attribute getters and WHERE-rule methods -/
+
+namespace Body
+
+/-- the attributes an expression refers to -/
+def attrsOf : Expr → List String
+  | .attr n => [n]
+  | .selfAttr n => [n]
+  | .un _ x => attrsOf x
+  | .bin _ l r => attrsOf l ++ attrsOf r
+  | _ => []
+
+/-- an XOR whose right operand is an XOR occurs in the expression -/
+def xorRightNested : Expr → Bool
+  | .un _ x => xorRightNested x
+  | .bin op l r => (op == .xor && isXor r) || xorRightNested l || xorRightNested r
+  | _ => false
+
+/-- the declared attribute names keep apart under the escaping (always, once `is_python_keyword` compares stems) -/
+def NamesDistinct (env : List (String × V)) : Prop :=
+  ∀ a ∈ env.map (·.1), ∀ b ∈ env.map (·.1), pyName a = pyName b → a = b
+
+theorem lookup_mem {env : List (String × V)} {n : String} {v : V} (h : lookup env n = some v) : n ∈ env.map (·.1) := by
+  induction env with
+  | nil => simp [lookup] at h
+  | cons p rest ih =>
+    obtain ⟨k, w⟩ := p
+    simp only [lookup] at h
+    by_cases hk : k = n
+    · simp [hk]
+    · rw [if_neg hk] at h; simp [ih h]
+
+theorem lookup_instance {env : List (String × V)} (hd : NamesDistinct env) {n : String} {v : V}
+    (h : lookup env n = some v) : lookup (instanceOf env) (pyName n) = some v := by
+  induction env with
+  | nil => simp [lookup] at h
+  | cons p rest ih =>
+    obtain ⟨k, w⟩ := p
+    simp only [lookup] at h
+    simp only [instanceOf, List.map_cons, lookup]
+    by_cases hk : k = n
+    · rw [if_pos hk] at h; rw [if_pos (by rw [hk])]; exact h
+    · rw [if_neg hk] at h
+      have hn : n ∈ (((k, w) :: rest).map (·.1)) := by simp [lookup_mem h]
+      have hne : ¬ pyName k = pyName n := fun hh => hk (hd k (by simp) n hn hh)
+      rw [if_neg hne]
+      exact ih (fun a ha b hb => hd a (by simp at ha ⊢; exact Or.inr ha) b (by simp at hb ⊢; exact Or.inr hb)) h
+
+theorem applyBin_spec (op : BinOp) (a b v : V) (h : Spec.Body.binSpec op a b = some v) : applyBin op.py a b = v := by
+  cases a with
+  | int x =>
+    cases b with
+    | int y => cases op <;> simp [Spec.Body.binSpec] at h <;> subst h <;> simp [applyBin, BinOp.py, cmpOp, V.toInt] <;> congr
+    | bool y => simp [Spec.Body.binSpec] at h
+  | bool x =>
+    cases b with
+    | int y => simp [Spec.Body.binSpec] at h
+    | bool y =>
+      cases op <;> simp [Spec.Body.binSpec] at h <;> subst h <;> cases x <;> cases y <;>
+        simp [applyBin, BinOp.py, cmpOp, V.toInt, V.truthy]
+
+theorem applyUn_spec (op : UnOp) (a v : V) (h : Spec.Body.unSpec op a = some v) : applyUn op a = v := by
+  cases op <;> cases a <;> simp [Spec.Body.unSpec] at h <;> subst h <;> simp [applyUn, V.truthy, V.toInt]
+
+theorem pyEval_un (inst : List (String × V)) (op : UnOp) (x : PyExpr) (a : V) (h : pyEval inst x = some a) :
+    pyEval inst (.un op x) = some (applyUn op a) := by
+  unfold pyEval at h ⊢
+  cases hx : pyEvalF inst x with
+  | none => simp [hx] at h
+  | some q => simp [hx] at h; simp [pyEvalF, hx, h]
+
+theorem pyEval_bin (inst : List (String × V)) (op : PyOp) (l r : PyExpr) (a b : V)
+    (hl : pyEval inst l = some a) (hr : pyEval inst r = some b) : pyEval inst (.bin op l r) = some (applyBin op a b) := by
+  unfold pyEval at hl hr ⊢
+  cases hx : pyEvalF inst l with
+  | none => simp [hx] at hl
+  | some q =>
+    cases hy : pyEvalF inst r with
+    | none => simp [hy] at hr
+    | some q' => simp [hx] at hl; simp [hy] at hr; simp [pyEvalF, hx, hy, hl, hr]
+
+theorem readAttr_eval (c : Cfg) (env : List (String × V)) (hd : NamesDistinct env) (n : String) (v : V) (p : PyExpr)
+    (hk : c.escapes = true ∨ pyName n = n) (hs : lookup env n = some v) (hr : readAttr c n = some p) :
+    pyEval (instanceOf env) p = some v := by
+  unfold readAttr at hr
+  have hl := lookup_instance hd hs
+  cases he : c.escapes with
+  | true =>
+    rw [he] at hr; simp only [if_true] at hr
+    injection hr with hr; subst hr
+    simp [pyEval, pyEvalF, hl]
+  | false =>
+    rw [he] at hr
+    have hn : pyName n = n := by
+      rcases hk with hk | hk
+      · rw [he] at hk; cases hk
+      · exact hk
+    by_cases hkw : n ∈ Spec.pyKeywords
+    · simp [hkw] at hr
+    · simp only [Bool.false_eq_true, if_false, if_neg hkw] at hr
+      injection hr with hr; subst hr
+      rw [hn] at hl
+      simp [pyEval, pyEvalF, hl]
+
+/-- the main lemma: whenever the reference gives the expression a value and the written text is Python, Python's
+evaluation of what it reads gives that value -/
+theorem body_value (c : Cfg) (env : List (String × V)) (hd : NamesDistinct env) :
+    ∀ (e : Expr) (v : V) (p : PyExpr),
+      (c.xorSkips = false ∨ xorRightNested e = false) →
+      (c.escapes = true ∨ ∀ n ∈ attrsOf e, pyName n = n) →
+      Spec.Body.eval env e = some v → readWith c e = some p →
+      pyEval (instanceOf env) p = some v := by
+  intro e
+  induction e with
+  | int n => intro v p _ _ hs hr; simp [Spec.Body.eval] at hs; simp [readWith] at hr; subst hs; subst hr; rfl
+  | tt => intro v p _ _ hs hr; simp [Spec.Body.eval] at hs; simp [readWith] at hr; subst hs; subst hr; simp [pyEval, pyEvalF]
+  | ff => intro v p _ _ hs hr; simp [Spec.Body.eval] at hs; simp [readWith] at hr; subst hs; subst hr; simp [pyEval, pyEvalF]
+  | attr n =>
+    intro v p _ hk hs hr
+    exact readAttr_eval c env hd n v p (hk.imp id (fun h => h n (by simp [attrsOf]))) hs hr
+  | selfAttr n =>
+    intro v p _ hk hs hr
+    exact readAttr_eval c env hd n v p (hk.imp id (fun h => h n (by simp [attrsOf]))) hs hr
+  | un op x ih =>
+    intro v p hx hk hs hr
+    simp only [readWith] at hr
+    cases hpx : readWith c x with
+    | none => simp [hpx] at hr
+    | some px =>
+      simp only [hpx, Option.map_some] at hr
+      injection hr with hr; subst hr
+      simp only [Spec.Body.eval] at hs
+      cases hvx : Spec.Body.eval env x with
+      | none => simp [hvx] at hs
+      | some vx =>
+        rw [hvx] at hs
+        have hf := ih vx px (by simpa [xorRightNested] using hx) (by simpa [attrsOf] using hk) hvx hpx
+        rw [pyEval_un _ op px vx hf, applyUn_spec op vx v (by simpa using hs)]
+  | bin op l r ihl ihr =>
+    intro v p hx hk hs hr
+    simp only [readWith] at hr
+    cases hpl : readWith c l with
+    | none => simp [hpl] at hr
+    | some pl =>
+      cases hpr : readWith c r with
+      | none => simp [hpl, hpr] at hr
+      | some pr =>
+        simp only [hpl, hpr] at hr
+        have hnc : ¬ (op = .xor ∧ c.xorSkips = true ∧ isXor r = true) := by
+          rintro ⟨h1, h2, h3⟩
+          rcases hx with hx | hx
+          · rw [h2] at hx; cases hx
+          · simp [xorRightNested, h1, h3] at hx
+        rw [if_neg hnc] at hr
+        injection hr with hr; subst hr
+        have hxl : c.xorSkips = false ∨ xorRightNested l = false := by
+          rcases hx with hx | hx
+          · exact Or.inl hx
+          · right; simp [xorRightNested] at hx; exact hx.1.2
+        have hxr : c.xorSkips = false ∨ xorRightNested r = false := by
+          rcases hx with hx | hx
+          · exact Or.inl hx
+          · right; simp [xorRightNested] at hx; exact hx.2
+        have hkl : c.escapes = true ∨ ∀ n ∈ attrsOf l, pyName n = n :=
+          hk.imp id (fun h n hn => h n (by simp [attrsOf, hn]))
+        have hkr : c.escapes = true ∨ ∀ n ∈ attrsOf r, pyName n = n :=
+          hk.imp id (fun h n hn => h n (by simp [attrsOf, hn]))
+        simp only [Spec.Body.eval] at hs
+        cases hvl : Spec.Body.eval env l with
+        | none => simp [hvl] at hs
+        | some vl =>
+          cases hvr : Spec.Body.eval env r with
+          | none => simp [hvl, hvr] at hs
+          | some vr =>
+            simp only [hvl, hvr] at hs
+            rw [pyEval_bin _ op.py pl pr vl vr (ihl vl pl hxl hkl hvl hpl) (ihr vr pr hxr hkr hvr hpr),
+              applyBin_spec op vl vr v hs]
+
+theorem readAttr_isSome (c : Cfg) (n : String) :
+    (readAttr c n).isSome = true ↔ (c.escapes = true ∨ n ∉ Spec.pyKeywords) := by
+  unfold readAttr
+  cases c.escapes with
+  | true => simp
+  | false => by_cases h : n ∈ Spec.pyKeywords <;> simp [h]
+
+theorem readWith_isSome (c : Cfg) (e : Expr) :
+    (readWith c e).isSome = true ↔ (c.escapes = true ∨ ∀ n ∈ attrsOf e, n ∉ Spec.pyKeywords) := by
+  induction e with
+  | int n => simp [readWith, attrsOf]
+  | tt => simp [readWith, attrsOf]
+  | ff => simp [readWith, attrsOf]
+  | attr n => simp [readWith, attrsOf, readAttr_isSome]
+  | selfAttr n => simp [readWith, attrsOf, readAttr_isSome]
+  | un op x ih => simpa [readWith, attrsOf] using ih
+  | bin op l r ihl ihr =>
+    have : (readWith c (.bin op l r)).isSome = true ↔ ((readWith c l).isSome = true ∧ (readWith c r).isSome = true) := by
+      simp only [readWith]
+      cases readWith c l <;> cases readWith c r <;> simp
+    rw [this, ihl, ihr]
+    simp only [attrsOf, List.mem_append]
+    constructor
+    · rintro ⟨h1 | h1, h2 | h2⟩
+      · exact Or.inl h1
+      · exact Or.inl h1
+      · exact Or.inl h2
+      · exact Or.inr (fun n hn => hn.elim (h1 n) (h2 n))
+    · rintro (h | h)
+      · exact ⟨Or.inl h, Or.inl h⟩
+      · exact ⟨Or.inr (fun n hn => h n (Or.inl hn)), Or.inr (fun n hn => h n (Or.inr hn))⟩
+
+end Body
+
+open Body in
+/-- **The body of a derived-attribute getter / WHERE-rule method is Python exactly when** the printer escapes the
+attribute references (regenerated `bodyEscapesKeywords`, fixes/C18-14) or the expression refers to no attribute named
+like a Python keyword (`self.class` is what is written otherwise) — for every expression of the fragment. -/
+theorem C18_body_compiles_iff (e : Body.Expr) :
+    (Body.read e).isSome = true ↔ (bodyEscapesKeywords = true ∨ ∀ n ∈ Body.attrsOf e, n ∉ Spec.pyKeywords) :=
+  Body.readWith_isSome Body.cfg e
+
+theorem Body.ruleNameWith_legal (c : Body.Cfg) (label : String) :
+    ((Body.ruleNameWith c label).isSome = true ↔ (c.escapes = true ∨ label ∉ Spec.pyKeywords)) ∧
+    ∀ n, Body.ruleNameWith c label = some n → n ∉ Spec.pyKeywords := by
+  unfold Body.ruleNameWith
+  cases c.escapes with
+  | true =>
+    refine ⟨by simp, ?_⟩
+    intro n hn
+    simp at hn
+    rw [← hn]; exact C18_names_legal label
+  | false =>
+    by_cases h : label ∈ Spec.pyKeywords
+    · simp [h]
+    · refine ⟨by simp [h], ?_⟩
+      intro n hn
+      simp [h] at hn
+      rw [← hn]; exact h
+
+/-- A WHERE rule becomes a method under a legal name exactly when the label is escaped or is no Python keyword; a name
+that is written is never a keyword. -/
+theorem C18_rule_method_name_legal (label : String) :
+    ((Body.ruleNameWith Body.cfg label).isSome = true ↔ (bodyEscapesKeywords = true ∨ label ∉ Spec.pyKeywords)) ∧
+    ∀ n, Body.ruleNameWith Body.cfg label = some n → n ∉ Spec.pyKeywords :=
+  Body.ruleNameWith_legal Body.cfg label
+
+/-- Once `is_python_keyword` compares stems (fixes/C18-13) the declared attribute names always keep apart under the
+escaping. -/
+theorem C18_body_names_distinct_when_stems_compared (hs : escapesStems = true) (env : List (String × Body.V)) :
+    Body.NamesDistinct env :=
+  fun a _ b _ h => C18_escaping_injective_when_stems_compared hs a b h
+
+/-- **The getter of a derived attribute returns the value EXPRESS gives the expression** (in particular it is total: no
+exception), on every instance whose attributes hold values of their declared types — for every expression of the fragment
+(integer literals, TRUE, FALSE, attribute references also through SELF, NOT, unary minus, + - * and the value comparisons
+on INTEGER, AND OR XOR = <> on BOOLEAN) that is well-typed (`Spec.Body.eval` defined).  Excluded: an XOR that is the
+right operand of an XOR while the printer leaves out its parentheses (regenerated `xorSkipsParentheses`; see the witness);
+references to keyword-named attributes while they are not escaped; attribute names that collide under the escaping. -/
+theorem C18_derived_getter_value_partial (env : List (String × Body.V)) (hd : Body.NamesDistinct env)
+    (e : Body.Expr) (v : Body.V) (p : Body.PyExpr)
+    (hx : xorSkipsParentheses = false ∨ Body.xorRightNested e = false)
+    (hk : bodyEscapesKeywords = true ∨ ∀ n ∈ Body.attrsOf e, pyName n = n)
+    (hs : Spec.Body.eval env e = some v) (hr : Body.read e = some p) :
+    Body.pyEval (Body.instanceOf env) p = some v :=
+  Body.body_value Body.cfg env hd e v p hx hk hs hr
+
+/-- The emitted rule method returns TRUE when the rule holds and raises AssertionError when it is violated — never
+anything else — under the conditions of `C18_derived_getter_value_partial`. -/
+theorem C18_where_rule_verdict_partial (env : List (String × Body.V)) (hd : Body.NamesDistinct env)
+    (e : Body.Expr) (b : Bool) (p : Body.PyExpr)
+    (hx : xorSkipsParentheses = false ∨ Body.xorRightNested e = false)
+    (hk : bodyEscapesKeywords = true ∨ ∀ n ∈ Body.attrsOf e, pyName n = n)
+    (hs : Spec.Body.rule env e = some b) (hr : Body.read e = some p) :
+    Body.ruleRun (Body.instanceOf env) p = (if b then .returns (.bool true) else .assertionError) := by
+  unfold Spec.Body.rule at hs
+  cases hv : Spec.Body.eval env e with
+  | none => simp [hv] at hs
+  | some v =>
+    cases v with
+    | int i => simp [hv] at hs
+    | bool b' =>
+      simp [hv] at hs; subst hs
+      have := C18_derived_getter_value_partial env hd e (.bool b') p hx hk hv hr
+      unfold Body.ruleRun
+      rw [this]
+      cases b' <;> simp [Body.V.truthy]
+
+/-- With the parentheses left out (`previous_op` handed down for XOR, before fixes/C18-16) `p XOR (q XOR p)` is written
+`(self.p != self.q != self.p)`, which Python reads as the chained comparison `p != q and q != p`: for p = TRUE,
+q = FALSE the getter returns TRUE where EXPRESS gives FALSE. -/
+theorem C18_legacy_xor_chain_witness :
+    let e : Body.Expr := .bin .xor (.attr "p") (.bin .xor (.attr "q") (.attr "p"))
+    let env : List (String × Body.V) := [("p", .bool true), ("q", .bool false)]
+    Body.readWith ⟨true, true⟩ e = some (.chain .ne (.attr "p") (.bin .ne (.attr "q") (.attr "p"))) ∧
+    Spec.Body.eval env e = some (.bool false) ∧
+    (Body.readWith ⟨true, true⟩ e).bind (Body.pyEval (Body.instanceOf env)) = some (.bool true) := by
+  decide
+
 
 end StepModel.GenPy
